@@ -126,12 +126,16 @@ def replay_for(d):
 
 def run_items(chk, part, ds, variant="fast", chunk=8):
     items = [jdn(d) for d in ds]
-    res = run_batch(variant, DRIVER, items, env={"VERIF_VTIME": "1"}, chunk=chunk, timeout=90)
+    res = run_batch(variant, DRIVER, items, env={"VERIF_VTIME": "1"}, chunk=chunk, timeout=90, max_deaths=10)
     calls = []
     confirmed = [0]
     for d, (st, text) in zip(ds, res):
         chk.add(evaluations=1, transitions=1, states=1)
         inj = ":eintr" if d.get(Kw("eintr")) else ""
+        if st == "SKIPPED":
+            chk.cap("%s: scenarios not run after 10 dead workers" % part)
+            calls.append(None)
+            continue
         if st != "OK":
             chk.violation("%s:%s%s" % (st.lower(), shape_sig(d), inj), "%s: %s %s" % (describe(d), st, text[:600]), replay_for(d))
             calls.append(None)
